@@ -278,12 +278,13 @@ theorem handleMisc_ts {cfg : Cfg} {m m' : M} {l : L} {b : Bool} (ps : Preset cfg
         cases hs : m.st <;> simp_all [isDiffHeader, isHunkHeader]
       · exact quietSt_diffHeader
 
-theorem handleSubmoduleLog_ts {cfg : Cfg} {m m' : M} {l : L} {b : Bool} (ps : Preset cfg)
+theorem handleSubmoduleLog_ts {cfg : Cfg} {m m' : M} {l : L} {b : Bool} (ps : Preset cfg) (hm : m.modeInfo = [])
     (e : handleSubmoduleLog cfg m l = .ok (b, m')) : TS l m m' := by
   unfold handleSubmoduleLog at e
   split at e
   · cases e; exact TS.refl l m
-  · exact handleAdditionalCases_ts ps rfl (by simp [Unif, isHunkHeader]) e
+  · rw [pendingDiffName_co ps.nf.1 ((flushMP_modeInfo m).trans hm), handleAdditionalCases_flushMP] at e
+    exact handleAdditionalCases_ts ps rfl (by simp [Unif, isHunkHeader]) e
 
 theorem handleSubmoduleShort_ts {cfg : Cfg} {m m' : M} {l : L} {b : Bool} (ps : Preset cfg)
     (e : handleSubmoduleShort cfg m l = .ok (b, m')) : TS l m m' := by
@@ -491,7 +492,7 @@ theorem handlerOf_ts {name : String} {hd : Handler} (hn : handlerOf name = some 
          | exact handleDiffHeaderDiff_ts ps inv hnc e | exact handleFileOperation_ts ps e
          | exact handleMinusLine_ts ps inv e | exact handlePlusLine_ts ps e
          | exact handleHunkHeader_ts e | exact handleModeLine_ts ps e
-         | exact handleMisc_ts ps inv hu e | exact handleSubmoduleLog_ts ps e
+         | exact handleMisc_ts ps inv hu e | exact handleSubmoduleLog_ts ps inv.mode e
          | exact handleSubmoduleShort_ts ps e | exact handleMergeConflict_ts ps e
          | exact handleHunkLine_ts ps g hu e | exact handleGitShowFile_ts e
          | exact handleBlame_ts g e | exact handleGrep_ts g hg e
